@@ -410,7 +410,8 @@ def c11():
         for mode in (0, 2):
             for spare in (False, True):
                 quick = (c, r) in [(2, 2), (2, 3), (1, 1)] and spare == (mode == 0)
-                add("C11", f"c11_crash_{MODES[mode]}_{c}x{r}_{'s' if spare else 'x'}", f"c11::crash_insert({mode}, {c}, {r}, {b(spare)})", c * r + max(c, r) + 4, "quick" if quick else "thorough")
+                add("C11", f"c11_crash_{MODES[mode]}_{c}x{r}_{'s' if spare else 'x'}", f"c11::crash_insert({mode}, {c}, {r}, {b(spare)})", c * r + max(c, r) + 4, "quick" if quick else "thorough",
+                    also=["C05"])  # the observer also decides C05's "never twice, never while reachable" on the panic path
     for mode in (0, 2):
         for have in (0, 1, 2):
             add("C11", f"c11_lying_{MODES[mode]}_empty_have{have}", f"c11::lying_insert_empty({mode}, {have})", 8, "quick" if have != 1 else "thorough",
@@ -544,6 +545,8 @@ def c14():
         add("C14", f"c14_{nm}_mismatch_owned_2x3", f"c14::bulk({op}, 0, 2, 3, 0, 2, true)", 7, "quick" if op in (0, 1, 2, 4) else "thorough", kind="panic")
         add("C14", f"c14_{nm}_mismatch_owned_0x0", f"c14::bulk({op}, 0, 0, 0, 0, 0, true)", 7, "thorough", kind="panic")
         add("C14", f"c14_{nm}_mismatch_view_c1_3", f"c14::bulk({op}, 1, 4, 4, 1, 3, true)", 7, "quick" if op in (0, 2, 3, 5) else "thorough", kind="panic")
+        # an empty destination window must still reject a non-empty source
+        add("C14", f"c14_{nm}_mismatch_view_c2_2", f"c14::bulk({op}, 1, 4, 4, 2, 2, true)", 7, "quick" if op in (0, 1, 4) else "thorough", kind="panic")
     for order, on in ((0, "down"), (1, "level"), (2, "up")):
         for height in (0, 1, 2, 3):
             q = "quick" if height in (1, 2) else "thorough"
